@@ -10,7 +10,7 @@ export GOFLAGS=-mod=mod GOPROXY=off GOSUMDB=off GOTOOLCHAIN=local
 PATCH=$OUT/$V.patch.diff
 [ -f "$PATCH" ] || { echo "no patch $PATCH"; exit 2; }
 DEMO=$(ls $OUT/$V.demo*_test.go $OUT/$V.demo*.go 2>/dev/null | head -1)
-META_DIR=$(grep -ohE '(pkg|api)/[A-Za-z0-9_/.-]+' $OUT/$V.demo.md 2>/dev/null | sed 's#/[^/]*\.go$##; s#/$##' | while read d; do [ -d "/repo/$d" ] && { echo "$d"; break; }; done)
+META_DIR=$(grep -ohE 'go test[^`]*' $OUT/$V.demo.md 2>/dev/null | grep -oE '\./(pkg|api)/[A-Za-z0-9_/.-]+' | head -1 | sed 's#^\./##; s#/$##')
 if [ -n "${CONFIRM:-1}" ] && [ "${CONFIRM:-1}" = 1 ]; then
   WT=/tmp/mut-confirm-$P-$V
   git -C /repo worktree add -q --detach $WT HEAD 2>/dev/null
